@@ -1,7 +1,7 @@
 (* C17 — Embedded optimisation and clustering algorithms keep their contracts.
    Only the property theorems, each closed by `exact` (or by evaluation for witnesses). *)
 From Coq Require Import Permutation.
-From VRP Require Import Base.Tac Model.Dbscan Model.Lkh Model.KMedoids Proofs.DbscanP Proofs.LkhP Proofs.KMedoidsP.
+From VRP Require Import Base.Tac Model.Dbscan Model.Lkh Model.KMedoids Proofs.DbscanP Proofs.LkhP Proofs.LkhCostP Proofs.KMedoidsP.
 Local Open Scope nat_scope.
 
 (* ================================================================ density clustering (dbscan.rs :: create_clusters)
@@ -89,14 +89,54 @@ Qed.
 Theorem C17_lkh_improve_terminates_partial : forall cm nb ho p, improve cm nb ho p <> Fuel.
 Proof. exact improve_nofuel. Qed.
 
-(* clauses "always terminates" (outer loop of KOpt::optimize) and "closed-tour cost never above the input's":
-     FULL STATEMENT (not proved):  forall symmetric cm, nb, ho, p:
-        (exists ofuel q, optimize cm nb ho ofuel p = Found q)   and
-        (optimize cm nb ho ofuel p = Found q -> cycle_cost cm q <= cycle_cost cm p).
-   What is missing: that a successful try_path inside the search returns the 2-regular graph tour \ X u Y as a closed
-   cycle (degree argument over the alternating trail), from which cost q = cost p - relink < cost p and termination
-   of the outer loop follow.  Both clauses are evaluated on every implementation output by the verified checker below
-   (and by the harness watchdog for termination). *)
+(* clause "closed-tour cost never above the input's".  kopt.rs never compares tour costs: KOpt::optimize keeps whatever
+   `improve` returns, and `improve` accepts a move when its gain `relink` (removed minus added edge costs) is > 0 and
+   Tour::try_path rebuilds a tour.  The proof therefore goes through the search invariant (X is a set of tour edges,
+   |X| = |Y|, every node has the same degree in X and in Y, gain = cost X - cost Y), the two length checks of try_path
+   (which force tour \ X u Y to have exactly n edges) and the walk of try_path over that edge set (start has degree 2,
+   so the walk closes), giving  cost(new) = cost(old) - relink.
+   Hypotheses: symmetric matrix (the property's domain), duplicate-free input path, hash order returning map entries.
+   One accepted improvement is STRICTLY cheaper, and tours of fewer than 3 nodes are never changed: *)
+Theorem C17_lkh_improvement_strict : forall cm nb ho,
+  (forall i j, cost cm i j = cost cm j i) ->
+  (forall l l', ho l = Some l' -> forall e, In e l' -> In e l) ->
+  forall p q, NoDup p -> improve cm nb ho p = Found q ->
+  Permutation q p /\ 3 <= length p /\ (cycle_cost cm q < cycle_cost cm p)%Z.
+Proof. exact improve_step. Qed.
+
+Theorem C17_lkh_cost : forall cm nb ho,
+  (forall i j, cost cm i j = cost cm j i) ->
+  (forall l l', ho l = Some l' -> forall e, In e l' -> In e l) ->
+  forall ofuel p q, NoDup p -> optimize cm nb ho ofuel p = Found q ->
+  (cycle_cost cm q <= cycle_cost cm p)%Z.
+Proof. exact optimize_cost. Qed.
+
+(* clause "always terminates", stated without fuel: over exact (integer) costs some number of loop iterations always
+   suffices, i.e. the modelled KOpt::optimize never runs out of ANY sufficiently large outer fuel (the inner search
+   never does, C17_lkh_improve_terminates_partial).  Measure: cost(p) + sum of |cost| over the node pairs of p, a
+   natural number that every accepted improvement decreases.
+   What remains for f64: `relink > 0.` is evaluated on rounded sums, so a positive computed gain need not be a real
+   decrease when costs are not exactly representable / sums exceed 2^53; the theorem is about exact arithmetic only
+   (the harness uses integer-valued costs, where f64 is exact, and a watchdog). *)
+Theorem C17_lkh_terminates : forall cm nb ho,
+  (forall i j, cost cm i j = cost cm j i) ->
+  (forall l l', ho l = Some l' -> forall e, In e l' -> In e l) ->
+  forall p, NoDup p -> exists ofuel, optimize cm nb ho ofuel p <> Fuel.
+Proof. exact optimize_terminates. Qed.
+
+(* the whole LKH contract in one statement: the loop ends, and (unless the strict tie oracle of the correspondence
+   aborted) it ends with a permutation of the input that starts at the same node and is not more expensive *)
+Theorem C17_lkh_contract : forall cm nb ho,
+  (forall i j, cost cm i j = cost cm j i) ->
+  (forall l l', ho l = Some l' -> forall e, In e l' -> In e l) ->
+  forall p, NoDup p ->
+  exists ofuel, optimize cm nb ho ofuel p = Abort
+                \/ exists q, optimize cm nb ho ofuel p = Found q
+                             /\ Permutation q p /\ hd_error q = hd_error p
+                             /\ (cycle_cost cm q <= cycle_cost cm p)%Z.
+Proof. exact lkh_contract_total. Qed.
+
+(* the same three clauses are also evaluated on every implementation output by this verified checker *)
 Theorem C17_lkh_checker_sound : forall cm input output,
   check_lkh cm input output = [] <->
   Permutation output input /\ hd_error output = hd_error input /\ (cycle_cost cm output <= cycle_cost cm input)%Z.
